@@ -281,6 +281,7 @@ def run(chk):
     _envuse_rule(chk, full)
     _symmap_rule(chk, full)
     _abstractinit_rule(chk, full)
+    _frameroom_rule(chk, full)
 
 
 def _envvalid_rule(chk, prog):
@@ -1423,4 +1424,64 @@ def _abstractinit_rule(chk, prog):
                           "`%s` can raise while the abstract allocated by janet_unmarshal_abstract is still uninitialised; the object is "
                           "already on the heap and %s (its finalizer) will run over uninitialised memory at the next collection" % (
                               bad.text()[:50], gc.name))
+    chk.floor(rule, 2, n)
+
+
+def _cmp_int32max(fn, name):
+    """does `fn` compare the variable `name` with INT32_MAX"""
+    for x in fn.nodes:
+        if x.k == "bin" and x.op in ("<", ">", "<=", ">="):
+            sides = [strip_casts(k) for k in x.kids]
+            if any(k.k == "ref" and k.name == name for k in sides) and \
+                    any("INT32_MAX" in y.macro_names() or y.v == 2 ** 31 - 1 for k in x.kids for y in k.walk()):
+                return True
+    return False
+
+
+def _frameroom_rule(chk, prog):
+    """A definition's slotcount comes out of an image or from asm and is only known to be a non-negative int32.  The
+    frame constructors add it to the current stack position to find where the new frame ends; done in 32 bits that sum
+    wraps for a huge slotcount, the `is there room` test passes, and the frame is built outside the fiber's stack."""
+    rule = "C10-FRAMEROOM"
+    chk.rule(rule, "the frame constructors compute the end of a new frame from a definition's slotcount in 64 bits and range-check it against INT32_MAX before narrowing")
+    tu = prog.tus["fiber.c"]
+    byname = {f.name: f for f in tu.funcs.values()}
+    n = 0
+    for fn in tu.funcs.values():
+        sums = [x for x in fn.nodes if x.k == "bin" and x.op == "+" and any(y.k == "mem" and y.field == "slotcount" and y.rec == "JanetFuncDef" for y in x.walk())
+                and not (x.parent is not None and x.parent.k == "bin" and x.parent.op == "+")]
+        if not sums:
+            continue
+        chk.analysed(fn)
+        for x in sums:
+            n += 1
+            chk.instance(rule)
+            if (x.t or "") not in ("int64_t", "long", "long long", "size_t", "unsigned long"):
+                chk.violation(rule, "fiber.c", fn.name, "slotcount-sum", x.loc,
+                              "`%s` adds a definition's slotcount in %s arithmetic: for a slotcount near INT32_MAX (accepted by asm and "
+                              "by unmarshal) the sum wraps negative, the capacity test passes and the frame is written outside the "
+                              "fiber's stack" % (x.text()[:60], x.t or "32-bit"))
+                continue
+            p = x.parent
+            while p is not None and p.k in ("cast", "paren"):
+                p = p.parent
+            var = p.name if p is not None and p.k == "vardecl" else None
+            checked = False
+            if var:
+                checked = _cmp_int32max(fn, var)
+                for c in fn.nodes:
+                    if checked:
+                        break
+                    if c.k == "call" and c.callee in byname:
+                        for ai, a in enumerate(c.args):
+                            if strip_casts(a).k == "ref" and strip_casts(a).name == var:
+                                g = byname[c.callee]
+                                ps = g.params
+                                if ai < len(ps) and _cmp_int32max(g, ps[ai]["n"]):
+                                    checked = True
+            if checked:
+                chk.ok(rule, "%s: `%s` computed in 64 bits and compared with INT32_MAX before it is narrowed" % (fn.name, x.text()[:50]))
+            else:
+                chk.violation(rule, "fiber.c", fn.name, "slotcount-sum-unchecked", x.loc,
+                              "`%s` is computed in 64 bits but never compared with INT32_MAX before it is narrowed to a stack index" % x.text()[:60])
     chk.floor(rule, 2, n)
